@@ -58,7 +58,7 @@ CLAIM = {
             "guard order regenerated from tracing.py on every run) and theorems for every well-formed event history and any "
             "interleaving of frames: tracer_log_faithful (per call: exactly the trace the ground truth prescribes - function, "
             "argument types at the first call event, return type iff it returned, union of yields, awaits not counted), "
-            "tracer_logs_at_most_once, tracer_no_residue, tracer_refines_monitor, tracer_log_append_only; the known defect "
+            "tracer_logs_at_most_once, tracer_no_residue, tracer_refines_monitor, tracer_log_append_only, tracer_log_in_completion_order (read oldest first the log IS the sequence of completion events of the history, each finished traceable call once with its faithful trace, in the order in which the calls finished), tracer_logs_each_frame_once, tracer_table_is_the_pending_frames, tracer_keeps_nothing_when_all_finished; the known defect "
             "class kf_raise_at_yield is refuted in Refuted/C02.v and excluded by wf_history. Tie: generated programs run "
             "under a recording profiler that forwards to the real CallTracer; verdicts (environment assumption, property "
             "against ground truth, model = implementation) evaluated in Coq.",
